@@ -1,4 +1,5 @@
 import MpVerif.C02.GenTieLex
+import MpVerif.C02.LemmasSites
 /-!
 # C02: structure ties — which guards, which bounds with which header field, which switch cases exist in the source
 
@@ -199,15 +200,50 @@ theorem char_cne (c : UInt8) (k : Nat) (hk : k < 128) :
 
 /-- `ReadString`: `*ptr_ != ':'` -/
 theorem C02_gen_expected_colon (c : UInt8) :
-    g_TextReader_ReadString__expected (asChar c) = .ret (bi (c != 58)) := by
+    g_TextReader_ReadString__expected (asChar c) = .ret (bi (G.notColon c)) := by
   unfold g_TextReader_ReadString__expected
   exact congrArg Outcome.ret (char_cne c 58 (by omega))
 
 /-- `ReadString`: `*ptr_ != '\n'` after the string -/
 theorem C02_gen_expected_newline_after_string (c : UInt8) :
-    g_TextReader_ReadString__expected_newline (asChar c) = .ret (bi (c != 10)) := by
+    g_TextReader_ReadString__expected_newline (asChar c) = .ret (bi (G.notNewline c)) := by
   unfold g_TextReader_ReadString__expected_newline
   exact congrArg Outcome.ret (char_cne c 10 (by omega))
+
+theorem asChar_zero (c : UInt8) : asChar c = 0 ↔ c = 0 := by
+  have := asChar_eq c 0 (by omega)
+  simpa using this
+
+/-- `ReadName`: `*ptr_ == '\\n' || !*ptr_` -/
+theorem C02_gen_noName (c : UInt8) :
+    g_TextReader_ReadName__expected_name (asChar c) = .ret (bi (G.noName c)) := by
+  unfold g_TextReader_ReadName__expected_name G.noName
+  rw [conv_tI_char, conv_tI_small 10 (by omega) (by omega)]
+  have h10 := asChar_eq c 10 (by omega)
+  have h0 := asChar_zero c
+  by_cases a : c = 10
+  · subst a
+    have e10 : asChar 10 = 10 := by decide
+    simp [cor, ceq, bi, e10]
+  · have na : ¬ asChar c = 10 := fun e => a (by simpa using h10.mp e)
+    by_cases b : c = 0
+    · subst b
+      have e0 : asChar 0 = 0 := by decide
+      simp [cor, ceq, cnot, tobool, bi, e0, Outcome.bind]
+    · have nb : ¬ asChar c = 0 := fun e => b (h0.mp e)
+      simp [cor, ceq, cnot, tobool, bi, na, nb, a, b, Outcome.bind]
+
+/-- `ReadString`: `!c && ptr_ == end_` -/
+theorem C02_gen_eofInString (c : UInt8) (atEnd : Bool) :
+    g_TextReader_ReadString__unexpected_end_of_file_in_string (asChar c) (bi atEnd) = .ret (bi (G.eofInString c atEnd)) := by
+  unfold g_TextReader_ReadString__unexpected_end_of_file_in_string G.eofInString
+  have h0 := asChar_zero c
+  by_cases b : c = 0
+  · subst b
+    have e0 : asChar 0 = 0 := by decide
+    cases atEnd <;> simp [cand, cnot, tobool, bi, e0, Outcome.bind]
+  · have nb : ¬ asChar c = 0 := fun e => b (h0.mp e)
+    cases atEnd <;> simp [cand, cnot, tobool, bi, nb, b]
 
 /-- `ReadUInt` / `ReadInt`: the error is reported iff the optional read found no digit -/
 theorem C02_gen_expected_uint (found : Bool) :
